@@ -109,6 +109,23 @@ type Knobs struct {
 	Balance     string    `json:"balance"` // per denom per actor
 	Nodes       []NodeCfg `json:"nodes"`   // replicas (node 0, the reference, is implicit)
 	RefMempool  bool      `json:"ref_mempool,omitempty"` // reference node runs the app-side mempool too
+	// BigReg: a registration that already holds more records than a genesis export carries
+	// (the newest 20,000), injected through genesis with identifier Start-1 and an owner that never signs
+	BigReg *BigReg `json:"big_reg,omitempty"`
+}
+
+type BigReg struct {
+	Kind string `json:"kind"` // wrk | bcn
+	N    uint64 `json:"n"`    // records in state
+}
+
+// BigRegOwner owns the genesis-injected registration; nobody holds its key.
+func BigRegOwner() sdk.AccAddress {
+	b := make([]byte, 20)
+	for i := range b {
+		b[i] = 0xB1
+	}
+	return sdk.AccAddress(b)
 }
 
 // Actor is one simulated client with a deterministic key.
@@ -258,11 +275,31 @@ func BuildGenesis(k *Knobs, actors []*Actor) (json.RawMessage, []abci.ValidatorU
 	wg := wrkchaintypes.DefaultGenesisState()
 	wg.Params = wrkchaintypes.NewParams(k.Wrk.FeeReg, k.Wrk.FeeRec, k.Wrk.FeePur, k.Wrk.Denom, k.Wrk.DefLimit, k.Wrk.MaxLimit)
 	wg.StartingWrkchainId = k.StartWrk
+	if k.BigReg != nil && k.BigReg.Kind == "wrk" && k.StartWrk >= 2 {
+		n := k.BigReg.N
+		blocks := make(wrkchaintypes.WrkChainBlockGenesisExports, 0, n)
+		for h := uint64(1); h <= n; h++ {
+			blocks = append(blocks, wrkchaintypes.WrkChainBlockGenesisExport{He: h, Bh: fmt.Sprintf("b%x", h*2654435761), Ph: fmt.Sprintf("p%x", h), H1: "1", H2: "", H3: fmt.Sprintf("%d", h%7), St: uint64(GenesisTS) - n + h})
+		}
+		wg.RegisteredWrkchains = append(wg.RegisteredWrkchains, wrkchaintypes.WrkChainExport{
+			Wrkchain:     wrkchaintypes.WrkChain{WrkchainId: k.StartWrk - 1, Moniker: "bigreg", Name: "many records", Genesis: "g", Type: "geth", Lastblock: n, NumBlocks: n, LowestHeight: 1, RegTime: uint64(GenesisTS) - n - 1, Owner: BigRegOwner().String()},
+			InStateLimit: n + 1000, Blocks: blocks})
+	}
 	gs[wrkchaintypes.ModuleName] = cdc.MustMarshalJSON(wg)
 
 	bg := beacontypes.DefaultGenesisState()
 	bg.Params = beacontypes.NewParams(k.Beacon.FeeReg, k.Beacon.FeeRec, k.Beacon.FeePur, k.Beacon.Denom, k.Beacon.DefLimit, k.Beacon.MaxLimit)
 	bg.StartingBeaconId = k.StartBeacon
+	if k.BigReg != nil && k.BigReg.Kind == "bcn" && k.StartBeacon >= 2 {
+		n := k.BigReg.N
+		ts := make(beacontypes.BeaconTimestampGenesisExports, 0, n)
+		for i := uint64(1); i <= n; i++ {
+			ts = append(ts, beacontypes.BeaconTimestampGenesisExport{Id: i, T: uint64(GenesisTS) - n + i, H: fmt.Sprintf("h%x", i*2654435761)})
+		}
+		bg.RegisteredBeacons = append(bg.RegisteredBeacons, beacontypes.BeaconExport{
+			Beacon:       beacontypes.Beacon{BeaconId: k.StartBeacon - 1, Moniker: "bigreg", Name: "many timestamps", LastTimestampId: n, FirstIdInState: 1, NumInState: n, RegTime: uint64(GenesisTS) - n - 1, Owner: BigRegOwner().String()},
+			InStateLimit: n + 1000, Timestamps: ts})
+	}
 	gs[beacontypes.ModuleName] = cdc.MustMarshalJSON(bg)
 
 	sg := streamtypes.DefaultGenesis()
